@@ -1,12 +1,13 @@
-"""Contracts for Cython/Utility/CMath.c: DivInt, ModInt, ModFloat, IntPow  (C03, C06, C07; UB part -> C36; C39).
+"""Contracts for Cython/Utility/CMath.c: DivInt, ModInt, IntPow  (C03, C07; UB part -> C36; C39).
 
 Postconditions come from the property statements ("result == a // b as CPython computes it"),
-preconditions from the call sites (DivNode.generate_div_warning_code establishes b != 0 and - for
-long-sized types only, see the L3 units - the MIN/-1 guard before calling __Pyx_div_T).
+preconditions from the call sites (DivNode.generate_div_warning_code establishes b != 0 and the
+MIN/-1 guard before calling __Pyx_div_T; the L3 units in l3_div.py check that the emitted call
+sites really establish them).
 """
 from dv import spec as S
 from dv.spec import And, Or, Not, Implies, If
-from dv.cunit import CUnit
+from dv.cunit import CUnit, Callee
 from dv import cextract
 
 SERVES = ("C03", "C07", "C36", "C39")
@@ -36,23 +37,44 @@ def _fname(prefix, tname):
     return "__Pyx_%s_%s" % (prefix, _pyrex_type(tname).specialization_name())
 
 
+# ---- the contracts (shared by the helper units below and by the call sites verified in l3_div.py)
+
+DIV_REQUIRES = [
+    ("b!=0", lambda e: e.b != 0),
+    ("b_is_constant in {0,1}", lambda e: Or(e.b_is_constant == 0, e.b_is_constant == 1)),
+    # types of at least int width: MIN / -1 is C undefined behaviour (traps on x86), so the caller must
+    # exclude it; narrower types are divided as int (no UB) and merely do not fit afterwards
+    ("width>=int => not(a==MIN and b==-1)", lambda e: Implies(e.T.bits >= 32, Not(And(e.a == e.T.min, e.b == -1)))),
+]
+# statement: "whenever the mathematical result fits the result type"
+DIV_ENSURES = [("quotient fits => result==a//b",
+                lambda e: Implies(Not(And(e.a == e.T.min, e.b == -1)), e.result == S.floordiv(e.a, e.b)))]
+MOD_REQUIRES = [
+    ("b!=0", lambda e: e.b != 0),
+    ("b_is_constant in {0,1}", lambda e: Or(e.b_is_constant == 0, e.b_is_constant == 1)),
+]
+MOD_ENSURES = [("result==a%b", lambda e: e.result == S.pymod(e.a, e.b))]
+
+
+def div_callee(name):
+    return Callee(name, ["a", "b", "b_is_constant"], requires=DIV_REQUIRES, ensures=DIV_ENSURES)
+
+
+def mod_callee(name):
+    return Callee(name, ["a", "b", "b_is_constant"], requires=MOD_REQUIRES, ensures=MOD_ENSURES)
+
+
 def units(tier):
     us = []
     types = SIGNED_QUICK if tier == "quick" else SIGNED_ALL
     for tname in types:
-        for util, pre, spec_fn, label in (("DivInt", "div", S.floordiv, "result==a//b"),
-                                          ("ModInt", "mod", S.pymod, "result==a%b")):
-            req = [("b!=0", lambda e: e.b != 0),
-                   ("b_is_constant in {0,1}", lambda e: Or(e.b_is_constant == 0, e.b_is_constant == 1))]
-            if util == "DivInt":
-                # call-site fact demanded of the generated guard: the quotient fits
-                req.append(("not(a==MIN and b==-1)", lambda e: Not(And(e.a == e.T.min, e.b == -1))))
+        for util, pre, req, ens in (("DivInt", "div", DIV_REQUIRES, DIV_ENSURES),
+                                    ("ModInt", "mod", MOD_REQUIRES, MOD_ENSURES)):
             us.append(CUnit(
                 uid="CMath.%s[%s]" % (util, tname),
                 props={"C03": None, "C36": ["ub"], "C39": None},
                 fname=_fname(pre, tname), tu=_template_tu(util, tname),
-                requires=req,
-                ensures=[(label, (lambda f: lambda e: e.result == f(e.a, e.b))(spec_fn))],
+                requires=req, ensures=ens,
                 subject={"file": "Cython/Utility/CMath.c", "template": util, "instantiation": tname}))
     return us
 
